@@ -49,13 +49,11 @@ theorem inv_step_lts (fuel : Nat) (h : Inv2 F flow size cfg Lmax P s a) (hp : po
     have := runActs_append _ _ _ _ _ _ _ _ _ _ h0 h7
     simpa using this
 
-theorem toM_a0 (ht : FlowsOK F cfg) (arrivals : List (ℚ × Int)) :
+theorem toM_a0 (arrivals : List (ℚ × Int)) :
     toM cfg.flows flow size (a0 arrivals) [] 0 = DRR.start cfg 0 := by
   simp only [toM, mst, ctlOf, a0, pcOf, phaseOf, DRR.start, MQ.init, DRR.ctl0, DRR.counts0, dictOf, DRR.Cfg.flows, List.map_map,
     visitsOf, sentOf, forfKeys, parkKeys, keysOf, List.foldl_nil, List.map_nil]
-  first
-    | rfl
-    | (congr 1; congr 1 <;> (apply List.map_congr_left; intro x _; simp [zero_eq']))
+  rfl
 
 theorem initState_now (arrivals : List (ℚ × Int)) : (initState F cfg arrivals : KS).now = 0 := by
   simp [initState, doCall_spawn, zero_eq']
@@ -80,7 +78,7 @@ theorem reach_lts (fuel : Nat) {arrivals : List (ℚ × Int)} (hw : WorkOK flow 
     · rw [initState_trace, histOf_empty]
       exact ⟨rfl, rfl, fun c hc => absurd rfl hc, fun _ _ => rfl⟩
     · rw [initState_trace, histOf_empty]; exact evsOK_nil
-    · rw [initState_now, initState_trace, histOf_empty, toM_a0 ht]; rfl
+    · rw [initState_now, initState_trace, histOf_empty, toM_a0]; rfl
   | @step s s' _ hs ih =>
     obtain ⟨a, acts, hi, hact, hrun⟩ := ih
     cases hp : popMin s.agenda with
